@@ -64,16 +64,6 @@ func (c *clientService) Add(obj Actor) (uint32, error) {
 	c.nextID++
 	c.nextIDMutex.Unlock()
 
-	obj.Activate(Activation{
-		ServiceID: c.serviceID,
-		ObjectID:  id,
-		Session:   c.session,
-		Terminate: func() {
-			c.Remove(id)
-		},
-		Service: c,
-	})
-
 	filter := func(hdr *net.Header) (matched bool, keep bool) {
 		if hdr.Service == c.serviceID && hdr.Object == id {
 			// an object which is being removed does not receive
@@ -87,21 +77,35 @@ func (c *clientService) Add(obj Actor) (uint32, error) {
 		return false, true
 	}
 	queue := make(chan *net.Message, 10)
+	closer := func(err error) {
+		obj.OnTerminate()
+	}
+
+	// the object is registered before it is activated, so that it can
+	// be removed from there on (it may terminate itself from its
+	// activation). The endpoint calls the filter with its own lock
+	// held: the handler is registered before objectsMutex is taken.
+	handlerID := c.context.EndPoint().MakeHandler(filter, queue, closer)
+	c.objectsMutex.Lock()
+	c.objectsHandlers[id] = handlerID
+	c.objectsMutex.Unlock()
+
+	obj.Activate(Activation{
+		ServiceID: c.serviceID,
+		ObjectID:  id,
+		Session:   c.session,
+		Terminate: func() {
+			c.Remove(id)
+		},
+		Service: c,
+	})
+
+	// the messages received meanwhile wait in the queue.
 	go func() {
 		for msg := range queue {
 			obj.Receive(msg, c.context)
 		}
 	}()
-	closer := func(err error) {
-		obj.OnTerminate()
-	}
-
-	// the endpoint calls the filter with its own lock held: the
-	// handler is registered before objectsMutex is taken.
-	handlerID := c.context.EndPoint().MakeHandler(filter, queue, closer)
-	c.objectsMutex.Lock()
-	defer c.objectsMutex.Unlock()
-	c.objectsHandlers[id] = handlerID
 	return id, nil
 }
 
